@@ -60,12 +60,12 @@ var avoidKnown = map[string]bool{
 	// mp4/mdat.go ReadData and CopyData, in-memory branch: `endIndexInMdatData >= dataLen` refuses every range
 	// whose last byte is the last payload byte (the whole payload included); the lazy branch returns it.
 	// Skipped: in-memory ReadData/CopyData queries with start+size == end of payload.
-	"inmem-range-ending-at-last-payload-byte": true,
+	"inmem-range-ending-at-last-payload-byte": false, // repaired in /repo (fix: fac9f3c)
 	// mp4/mdat.go ReadData and CopyData, lazy branch: no check against the payload at all; a range that starts
 	// in front of the payload or ends behind it is served from the neighbouring boxes of the file without error
 	// (the in-memory branch answers "invalid range provided").
 	// Skipped: lazy ReadData/CopyData queries outside the payload that lie completely inside the file.
-	"lazy-range-outside-payload-not-refused": true,
+	"lazy-range-outside-payload-not-refused": false, // repaired in /repo (fix: 9822665)
 }
 
 const (
